@@ -126,6 +126,8 @@ func (w *world) runHelpers(c fiber.Ctx) error {
 			c.Location(arg(a, 0))
 		case "cookie":
 			c.Cookie(&fiber.Cookie{Name: arg(a, 0), Value: arg(a, 1), Path: arg(a, 2), Domain: arg(a, 3)})
+		case "clearcookie":
+			c.ClearCookie(arg(a, 0))
 		case "links":
 			c.Links(arg(a, 0), arg(a, 1))
 		case "attachment":
@@ -296,6 +298,9 @@ func implied(hs []Helper) (names map[string]bool, cookies map[string]bool) {
 		case "cookie":
 			names["set-cookie"] = true
 			cookies[arg(h.Args, 0)] = true
+		case "clearcookie":
+			names["set-cookie"] = true
+			cookies["(cleared) "+arg(h.Args, 0)] = true
 		case "links":
 			names["link"] = true
 		case "attachment", "download":
@@ -551,7 +556,7 @@ func genHelpers(t *rapid.T) []Helper {
 		return rapid.SampledFrom([]string{"n", "sid", "a-b", "n\r\nX-Injected: 1", "n\nm", "x y", "na;me"}).Draw(t, label)
 	}
 	for i := 0; i < n; i++ {
-		switch rapid.SampledFrom([]string{"set", "append", "location", "cookie", "links", "attachment", "type", "vary", "json", "jsonp", "redirect", "flash", "format", "download"}).Draw(t, "helper") {
+		switch rapid.SampledFrom([]string{"set", "append", "location", "cookie", "clearcookie", "links", "attachment", "type", "vary", "json", "jsonp", "redirect", "flash", "format", "download"}).Draw(t, "helper") {
 		case "set":
 			hs = append(hs, Helper{"set", []string{a("v")}})
 		case "append":
@@ -560,6 +565,12 @@ func genHelpers(t *rapid.T) []Helper {
 			hs = append(hs, Helper{"location", []string{a("loc")}})
 		case "cookie":
 			hs = append(hs, Helper{"cookie", []string{tok("cname"), a("cval"), a("cpath"), a("cdomain")}})
+		case "clearcookie":
+			if rapid.Bool().Draw(t, "cctok") {
+				hs = append(hs, Helper{"clearcookie", []string{tok("ccname")}})
+			} else {
+				hs = append(hs, Helper{"clearcookie", []string{a("ccname")}}) // e.g. a name taken from the query string
+			}
 		case "links":
 			hs = append(hs, Helper{"links", []string{a("link"), a("rel")}})
 		case "attachment":
